@@ -26,7 +26,7 @@ use std::collections::{BTreeMap, BTreeSet};
 use std::sync::atomic::Ordering::SeqCst;
 
 /// (commit, time as rfc3339, sha256 of event bytes)
-#[derive(Clone, Debug, PartialEq, Eq, PartialOrd, Ord)]
+#[derive(Clone, Debug, PartialEq, Eq, PartialOrd, Ord, serde::Serialize, serde::Deserialize)]
 pub struct RecT {
     pub commit: [u8; 32],
     pub time: String,
